@@ -144,8 +144,10 @@ Section CleanLookup.
   Lemma clean_build_dir c n : clean c -> clean (fst (build_dir E T c n)).
   Proof.
     intros H. unfold build_dir, sinterp_str.
-    pose proof (sinterp_pres clean false (lookup E T bd_diverge false)
-                  (fun st m Hst => clean_lookup bd_diverge (fun c0 _ Hc => clean_set_abort c0 Hc) false st m Hst)
+    assert (Hn : forall c0 n0, clean c0 -> clean (fst (bd_nested T c0 n0))).
+    { intros c0 n0 Hc. unfold bd_nested. destruct (t_builddir_guard T); [exact Hc|apply clean_set_abort, Hc]. }
+    pose proof (sinterp_pres clean false (lookup E T (bd_nested T) false)
+                  (fun st m Hst => clean_lookup (bd_nested T) Hn false st m Hst)
                   (pred (t_depth_limit T)) c (cstr running_tmpl) H) as Hs.
     destruct (sinterp _ _ _ c _) as [c1 r]. simpl in Hs. destruct r as [p|e].
     - destruct (e_file E p); [exact Hs|]. destruct (first_line (cstr b)); simpl.
